@@ -174,7 +174,7 @@ Definition chunk_write_unchecked (c : chunk_cfg) (buf : bytes) : wres (nat * byt
   buf <- copy_into buf 0 4 (be32 (ch_c_ssrc c)) ;;
   '(i, buf) <- items_write (ch_c_items c) 4 buf ;;
   let e := pad4 (i + 1) in
-  buf <- (if i <? e then fill_range buf i e 0%N else Ok buf) ;;
+  buf <- fill_if buf i e 0%N ;;
   Ok (e, buf).
 
 Fixpoint chunks_calc (cs : list chunk_cfg) : wres nat :=
